@@ -96,6 +96,11 @@ CHECKS = {
          "The 27 x 2 x 2 x 2 = 216-cell matrix (NO_COLOR / CLICOLOR / CLICOLOR_FORCE x pty-or-pipe x stdout-or-stderr x tty_only) is enumerated completely with a real ConsoleAppender in a child process; the bytes on the target stream and on the other stream must equal the policy's prediction (write or silent, SGR or none, reset after every highlighted group incl. truncated and right-aligned ones). All 243 styles must yield exactly the one well-formed SGR sequence. Random highlight patterns are checked byte for byte through AnsiWriter.",
          "Trusted: pty allocation via libc (posix_openpt), reference renderer. Windows console path not exercised. 'Set' = present and != \"0\".",
          "DESIGN.md §4 C18"),
+ "C15": ("exploration",
+         "runtime monitor: generation-tagged capturing appenders + (invocation, return) stamps from one atomic counter, offline register-linearizability check of the configuration each record was routed under; re-entrant swap appender; reloader stepped on logical time through the verif_hooks API with construction counters",
+         "Stress: up to 6 logging and 2 reconfiguring threads on one Logger; every record's deliveries must carry a single generation, equal the routing model of exactly that generation (shapes with different table sizes and levels), and that generation must be admissible w.r.t. the stamped set_config calls. Re-entrancy at every fan-out position. Reloader: edit histories (valid / unchanged / touch / syntax error / unknown key / deletion / rate change or removal) with exact expectations on result, construction count and routing after each poll; thorough adds the real init_file + reloader thread end to end and Miri seeds.",
+         "Trusted: routing model; stamps are taken at the client boundary. Schedules are sampled by stress volume; the two-load window inside Logger::log cannot be widened by a hook.",
+         "DESIGN.md §4 C15"),
 }
 
 NOT_YET = {}
